@@ -29,6 +29,11 @@ from vf import core, tools
 from vf.gen import fpgen
 
 LEVEL = "exploration"
+
+# An NDEBUG build of the tool (CMAKE_BUILD_TYPE=Release), registered here because vf/core.py is not ours to edit: the
+# asan/ubsan/standard flavours all keep assert() active, and a defect that an assertion happens to catch there is
+# *silent* in the release builds users install -- the wrong value has to be observed where it is produced.
+core.FLAVORS.setdefault("release", dict(cxx="g++", flags="", ldflags="", bt="Release", targets=["interrogate"]))
 LOCALE_NAME = "xx_XX.utf8"
 
 
@@ -115,6 +120,7 @@ def locale_env():
 def prepare(chk):
     core.build("asan")
     core.build("standard")
+    core.build("release")
     o2_harness()
     asan_harness()
     comma_locale()
@@ -344,10 +350,85 @@ def extract_sites(truth, oc_text, db, backend):
     return out
 
 
-def judge_header(d, header, truth, backend, locale):
+def _param_lists(text, func):
+    """every parameter list that follows `func(` in text -> list of lists of parameter strings"""
+    out = []
+    for m in re.finditer(r"(?<![\w])%s\(" % re.escape(func), text):
+        i, depth, cur, parts = m.end(), 1, "", []
+        while i < len(text):
+            ch = text[i]
+            if ch == "(":
+                depth += 1
+            elif ch == ")":
+                depth -= 1
+                if depth == 0:
+                    break
+            if ch == "," and depth == 1:
+                parts.append(cur.strip())
+                cur = ""
+            else:
+                cur += ch
+            i += 1
+        if depth == 0:
+            parts.append(cur.strip())
+            out.append(parts)
+    return out
+
+
+def _defaults_of(parts):
+    """[(position, default text)] of a parameter list"""
+    out = []
+    for pos, part in enumerate(parts):
+        m = re.search(r"\s=\s(.+)$", part)
+        if m:
+            out.append((pos, m.group(1).strip()))
+    return out
+
+
+def extract_sites_by_func(truth, oc_text, db):
+    """Like extract_sites, for headers in which parameter names repeat (colliding signatures): a site is located by
+    (function name, parameter position); function names are unique in the header."""
+    by = {(t["func"], t["pos"]): t for t in truth}
+    funcs = sorted({t["func"] for t in truth})
+    out = []
+    if db is not None:
+        for f in db["functions"]:
+            if f["name"] in funcs:
+                for parts in _param_lists(f.get("prototype", ""), f["name"]):
+                    for pos, txt in _defaults_of(parts):
+                        if (f["name"], pos) in by:
+                            out.append((by[(f["name"], pos)], "proto", txt))
+    rx = re.compile(r"(?<![\w])(%s)\(" % "|".join(re.escape(f) for f in funcs))
+    pending = None
+    for line in oc_text.splitlines():
+        ls = line.strip()
+        if ls.startswith("* ") or ls.startswith("// "):
+            m = rx.search(ls)
+            if m:
+                fn = m.group(1)
+                for parts in _param_lists(ls, fn):
+                    dfl = [(pos, txt) for pos, txt in _defaults_of(parts) if (fn, pos) in by]
+                    for pos, txt in dfl:
+                        out.append((by[(fn, pos)], "oc-comment", txt))
+                    if ls.startswith("// "):
+                        pending = [fn, [pos for pos, _ in _defaults_of(parts)], 0]
+            continue
+        if pending is not None:
+            m = re.match(r"\s*(?:[\w:]+\s+)+param\d+ = (.+);$", line)
+            if m:
+                fn, poss, k = pending
+                if k < len(poss) and (fn, poss[k]) in by:
+                    out.append((by[(fn, poss[k])], "native-init", m.group(1).strip()))
+                pending[2] += 1
+            elif "keyword_list" in line or "PyArg_" in line or "if (" in line:
+                pending = None
+    return out
+
+
+def judge_header(d, header, truth, backend, locale, flavor="asan"):
     """Runs interrogate on the header and judges every literal site.
     -> (why_inconclusive or None, [dict(t, site, emitted, status, want, got, err, cause)])"""
-    b = core.build("asan")
+    b = core.build(flavor)
     os.makedirs(d, exist_ok=True)
     hdr = os.path.join(d, "lib.h")
     open(hdr, "w").write(header)
@@ -361,6 +442,12 @@ def judge_header(d, header, truth, backend, locale):
                 ("Grisu" in f or "DigitGen" in f or "pdtoa" in f or "Prettify" in f or "pstrtod" in f) for f in fr):
             # the tool died inside the number formatter/parser while processing a header g++ accepts
             return None, [dict(crash=True, kind=_san_kind(r), frames=fr, err=r.err[-1200:])]
+        if r.died():
+            # abort / assertion / signal / sanitizer report on a header that g++ accepts and that consists of nothing
+            # but declarations with floating default arguments
+            m = re.search(r"Assertion `([^']*)' failed", r.err)
+            return None, [dict(crash=True, generic=True, kind=_san_kind(r), frames=fr, err=r.err[-1500:],
+                               assertion=m.group(1)[:120] if m else None)]
         return "interrogate did not accept the header (%s)" % r.how(), []
     try:
         oc_text = open(paths["oc"], errors="replace").read()
@@ -369,7 +456,10 @@ def judge_header(d, header, truth, backend, locale):
     rr, db = tools.idbdump([paths["od"]])
     if db is None:
         return "idbdump failed", []
-    sites = extract_sites(truth, oc_text, db, backend)
+    if truth and "pos" in truth[0]:
+        sites = extract_sites_by_func(truth, oc_text, db)
+    else:
+        sites = extract_sites(truth, oc_text, db, backend)
     lines = []
     recs = []
     for i, (t, site, emitted) in enumerate(sites):
@@ -428,11 +518,12 @@ def _variant_header(t):
     return "void fpmin_f(%s %s = %s%s);\n" % (CXX[t["ptype"]], t["name"], "-" if t["sign"] == "-" else "", t["text"])
 
 
-def minimise_e2e(d, t, site, backend, locale):
+def minimise_e2e(d, t, site, backend, locale, flavor="asan"):
     """Greedy reduction of a failing literal whose failure is not explained by pstrtod: drop digit separators, the
     sign, the suffix, make the parameter a double -- keep a step when the same site still fails."""
     def fails(c):
-        why, recs = judge_header(os.path.join(d, "min"), _variant_header(c), [c], backend, locale)
+        c = {k: v for k, v in c.items() if k != "pos"}          # isolated: located by its (unique) name
+        why, recs = judge_header(os.path.join(d, "min"), _variant_header(c), [c], backend, locale, flavor)
         if why:
             return None
         for rec in recs:
@@ -480,7 +571,9 @@ def run_e2e(ctx, case):
     if ref is None:
         res.inconclusive = "rejected_by_reference (g++)"
         return res
-    why, recs = judge_header(d, header, truth, backend, locale)
+    flavor = case.get("flavor", "asan")
+    ftag = "" if flavor == "asan" else ":" + flavor
+    why, recs = judge_header(d, header, truth, backend, locale, flavor)
     if why:
         res.inconclusive = why
         return res
@@ -488,6 +581,15 @@ def run_e2e(ctx, case):
     min_cache = {}
     reported = set()
     shown = []
+    if recs and recs[0].get("crash") and recs[0].get("generic"):
+        c = recs[0]
+        what = "assert" if c.get("assertion") else c["kind"]
+        res.violation("e2e-crash:%s:%s" % (what, ">".join(c["frames"][:3]) or "no-frames"),
+                      witness=dict(header=header, backend=backend, flavor=flavor, assertion=c.get("assertion")),
+                      expected="the tool processes a header of declarations with floating default arguments", got=c["err"])
+        res.features.add("e2e-crash-observed")
+        res.sample = dict(kind="e2e", backend=backend, flavor=flavor, crashed=True)
+        return res
     if recs and recs[0].get("crash"):
         c = recs[0]
         res.violation("pdtoa-memory-error:%s:%s" % (c["kind"], ">".join(c["frames"][:2])),
@@ -509,8 +611,8 @@ def run_e2e(ctx, case):
         if rec["status"] == "ambiguous":
             res.count("literals_ambiguous_long_double_rounding")
             continue
-        feat = "e2e:%s:%s:%s:suffix=%s:ptype=%s:%s%s" % (backend, sc, t["cls"], t["suffix"], t["ptype"],
-                                                        "sep" if t["sep"] else "nosep", ":comma" if locale else "")
+        feat = "e2e:%s:%s:%s:suffix=%s:ptype=%s:%s%s%s" % (backend, sc, t["cls"], t["suffix"], t["ptype"],
+                                                          "sep" if t["sep"] else "nosep", ":comma" if locale else "", ftag)
         res.features.add(feat)
         if len(shown) < 3:
             shown.append(dict(literal=t["text"], param=CXX[t["ptype"]], site=rec["site"], emitted=rec["emitted"], verdict=rec["status"]))
@@ -530,12 +632,18 @@ def run_e2e(ctx, case):
             if len(min_cache) >= 8:
                 res.count("failures_not_minimised")
                 continue
-            mt, m2 = minimise_e2e(d, t, rec["site"], backend, locale)
-            min_cache[ck] = (mt, m2 if m2 is not None else rec)
-        mt, mrec = min_cache[ck]
+            mt, m2 = minimise_e2e(d, t, rec["site"], backend, locale, flavor)
+            min_cache[ck] = (mt, m2 if m2 is not None else rec, m2 is not None)
+        mt, mrec, isolated = min_cache[ck]
         key = "e2e-literal-value:cause=other,site=%s,suffix=%s,ptype=%s,sep=%s,%s" % (
             sc, mt["suffix"], mt["ptype"], "y" if mt["sep"] else "n",
             "unparsable" if mrec["status"] == "unparsable" else "value")
+        if not isolated and "group" in t:
+            # right when alone, wrong next to its siblings: did it take the default of a function with the same type?
+            sib = [o for o in recs if o["t"].get("group") == t["group"] and o["t"]["id"] != t["id"] and
+                   o["t"]["pos"] == t["pos"] and o.get("want") == rec["got"]]
+            key = "e2e-literal-value:cause=%s,site=%s,relation=%s" % (
+                "default-of-sibling-signature" if sib else "context", sc, t["cls"])
         if key not in reported:
             reported.add(key)
             res.violation(key, witness=dict(literal=mt["text"], param=CXX[mt["ptype"]], sign=mt["sign"], site=rec["site"],
@@ -687,6 +795,20 @@ def main(chk):
         hrng = random.Random(rng.getrandbits(64))
         lits = hrng.sample(SUBNORMALS, 5) + ["0.1", "1e300", "%.17g" % hrng.uniform(1e-3, 1e3)]
         cases.append(dict(kind="default-build", fn="run_default_build", literals=lits))
+    # colliding signatures: in ONE header several functions/methods with identical return type, parameter names and
+    # types whose floating defaults are near-collisions (powers of two apart, +-0, same value spelled differently,
+    # suffix forms, adjacent doubles, ...).  Every header is seen by the sanitizer flavour (asserts on: a tripped
+    # consistency assertion is an e2e-crash) and by an NDEBUG release build (where the wrong value comes out silently);
+    # every other one also by the repository's default configuration.
+    for i in range(chk.pick(6, 30)):
+        hrng = random.Random(rng.getrandbits(64))
+        header, truth = fpgen.collide_header(hrng, tag="fpc", n_groups=hrng.randint(4, 7))
+        be = backends[i % len(backends)]
+        cases.append(dict(kind="e2e", header=header, truth=truth, backend=be, locale=False, flavor="asan"))
+        cases.append(dict(kind="e2e", header=header, truth=truth, backend="-python-native" if i % 2 == 0 else be,
+                          locale=(i % 3 == 1), flavor="release"))
+        if i % 2 == 0:
+            cases.append(dict(kind="e2e", header=header, truth=truth, backend=be, locale=False, flavor="standard"))
     for i, c in enumerate(cases):
         c["id"] = "k%d" % i
     # long-running slices first
